@@ -29,7 +29,128 @@ def specs(T):
     # drop_low_coverage: log2 < NULL_LOG2_COVERAGE - MIN_REF_COVERAGE or depth == 0
     T.body_contains(C, 'CopyNumArray.drop_low_coverage', 'min_cvg = params.NULL_LOG2_COVERAGE - params.MIN_REF_COVERAGE')
     T.body_contains(C, 'CopyNumArray.drop_low_coverage', "self.data['log2'] < min_cvg")
+    # ---- literals and comparison sites of the report functions (the function-body translator does not cover their
+    # loops; every decision the model takes on scalars is pinned to its source text here, fail-closed) ----
+    S = 'cnvlib/segmetrics.py'
+
+    def class_attr(rel, cls, name):
+        node = T.find_func(rel, cls)
+        hits = [n for n in node.body if isinstance(n, ast.Assign)
+                and any(isinstance(t, ast.Name) and t.id == name for t in n.targets)]
+        if len(hits) != 1:
+            raise T.Refuse('%s:%s: expected one class attribute %s' % (rel, cls, name))
+        return list(T.lit(hits[0].value, name))
+
+    def tuple_in(rel, qual, kind, what):
+        """the single literal tuple that is the iterable of a `for` (kind='for') / the right-hand side of a
+        `not in` comparison (kind='notin') inside function qual"""
+        f = T.find_func(rel, qual)
+        hits = []
+        for n in ast.walk(f):
+            if kind == 'for' and isinstance(n, ast.For) and isinstance(n.iter, ast.Tuple):
+                hits.append(n.iter)
+            if kind == 'notin' and isinstance(n, ast.Compare) and len(n.ops) == 1 and isinstance(n.ops[0], ast.NotIn) \
+                    and isinstance(n.comparators[0], ast.Tuple):
+                hits.append(n.comparators[0])
+        if len(hits) != 1:
+            raise T.Refuse('%s:%s: expected one literal tuple (%s), found %d' % (rel, qual, what, len(hits)))
+        return list(T.lit(hits[0], what))
+
+    required = class_attr(C, 'CopyNumArray', '_required_columns')
+    extra_excl = tuple_in(R, 'gene_metrics_by_segment', 'notin', 'columns never copied from the segment')
+    xfields = tuple_in(C, 'CopyNumArray.squash_genes', 'for', 'extra fields of squash_rows')
+    bcols = T.call_kw(R, 'do_breaks', 'from_records', 'columns')
+    for fn, frag in [
+        # by_gene: positional, end-exclusive slices per chromosome
+        ('CopyNumArray.by_gene', 'start_idx = gene_idx[0]'), ('CopyNumArray.by_gene', 'end_idx = gene_idx[-1] + 1'),
+        ('CopyNumArray.by_gene', 'if prev_idx < start_idx:'), ('CopyNumArray.by_gene', 'subgary.data.iloc[prev_idx:start_idx]'),
+        ('CopyNumArray.by_gene', 'subgary.data.iloc[start_idx:end_idx]'), ('CopyNumArray.by_gene', 'prev_idx = end_idx'),
+        ('CopyNumArray.by_gene', 'if prev_idx < len(subgary):'), ('CopyNumArray.by_gene', 'subgary.data.iloc[prev_idx:]'),
+        ('CopyNumArray.by_gene', 'if gene not in ignore:'), ('CopyNumArray.by_gene', 'subgary.data.reset_index(drop=True)'),
+        # squash_genes
+        ('CopyNumArray.squash_genes', 'if len(rows) == 1:'), ('CopyNumArray.squash_genes', 'return tuple(rows.iloc[0])'),
+        ('CopyNumArray.squash_genes', 'start = rows.start.iat[0]'), ('CopyNumArray.squash_genes', 'end = rows.end.iat[-1]'),
+        ('CopyNumArray.squash_genes', 'cvg = summary_func(rows.log2)'),
+        ('CopyNumArray.squash_genes', 'outrow = [chrom, start, end, name, cvg]'),
+        ('CopyNumArray.squash_genes', 'outrow.append(summary_func(rows[xfield]))'),
+        ('CopyNumArray.squash_genes', "if 'probes' in self:"), ('CopyNumArray.squash_genes', "outrow.append(sum(rows['probes']))"),
+        ('CopyNumArray.squash_genes', 'if name in params.ANTITARGET_ALIASES and (not squash_antitarget):'),
+        ('CopyNumArray.squash_genes', 'outrows.extend(subarr.data.itertuples(index=False))'),
+        ('CopyNumArray.squash_genes', 'outrows.append(squash_rows(name, subarr.data))'),
+        ('CopyNumArray.squash_genes', 'return self.as_rows(outrows)'),
+    ]:
+        T.body_contains(C, fn, frag)
+    d = ast.unparse(T.default_node(C, 'CopyNumArray.squash_genes', 'summary_func'))
+    if d != 'descriptives.biweight_location':
+        raise T.Refuse('squash_genes: default summary_func is %s' % d)
+    for fn, frag in [
+        ('do_genemetrics', 'if is_sample_female is None:'),
+        ('do_genemetrics', 'is_sample_female = cnarr.guess_xx(is_haploid_x_reference=is_haploid_x_reference, diploid_parx_genome=diploid_parx_genome)'),
+        ('do_genemetrics', 'cnarr = cnarr.shift_xx(is_haploid_x_reference, is_sample_female, diploid_parx_genome)'),
+        ('do_genemetrics', 'if segments:'),
+        ('do_genemetrics', 'segments = segments.shift_xx(is_haploid_x_reference, is_sample_female, diploid_parx_genome)'),
+        ('do_genemetrics', 'rows = gene_metrics_by_segment(cnarr, segments, threshold, skip_low)'),
+        ('do_genemetrics', 'rows = gene_metrics_by_gene(cnarr, threshold, skip_low)'),
+        ('do_genemetrics', 'columns = rows[0].index if len(rows) else cnarr._required_columns'),
+        ('do_genemetrics', "columns = ['gene'] + [col for col in columns if col != 'gene']"),
+        ('do_genemetrics', 'pd.DataFrame.from_records(rows).reindex(columns=columns)'),
+        ('do_genemetrics', 'if min_probes and len(table):'),
+        ('do_genemetrics', "table.segment_probes if 'segment_probes' in table.columns else table.probes"),
+        ('do_genemetrics', 'table = table[n_probes >= min_probes]'),
+        ('gene_metrics_by_gene', 'for row in group_by_genes(cnarr, skip_low):'),
+        ('gene_metrics_by_gene', 'if abs(row.log2) >= threshold and row.gene:'),
+        ('gene_metrics_by_segment', 'if col not in cnarr.data.columns and col not in'),
+        ('gene_metrics_by_segment', 'cnarr[colname] = np.nan'),
+        ('gene_metrics_by_segment', 'subprobes in cnarr.by_ranges(segments):'),
+        ('gene_metrics_by_segment', 'if abs(segment.log2) >= threshold:'),
+        ('gene_metrics_by_segment', 'for row in group_by_genes(subprobes, skip_low):'),
+        ('gene_metrics_by_segment', "row['log2'] = segment.log2"),
+        ('gene_metrics_by_segment', "if hasattr(segment, 'weight'):"),
+        ('gene_metrics_by_segment', "row['segment_weight'] = segment.weight"),
+        ('gene_metrics_by_segment', "if hasattr(segment, 'probes'):"),
+        ('gene_metrics_by_segment', "row['segment_probes'] = segment.probes"),
+        ('gene_metrics_by_segment', 'row[colname] = getattr(segment, colname)'),
+        ('group_by_genes', 'rows in cnarr.by_gene():'),
+        ('group_by_genes', 'if not rows or gene in ignore:'),
+        ('group_by_genes', 'segmean = segment_mean(rows, skip_low)'),
+        ('group_by_genes', 'outrow = rows[0].copy()'),
+        ('group_by_genes', "outrow['end'] = rows.end.iat[-1]"),
+        ('group_by_genes', "outrow['gene'] = gene"),
+        ('group_by_genes', "outrow['log2'] = segmean"),
+        ('group_by_genes', "outrow['probes'] = len(rows)"),
+        ('group_by_genes', "outrow['weight'] = rows['weight'].sum()"),
+        ('group_by_genes', "outrow['depth'] = np.average(rows['depth'], weights=rows['weight'])"),
+        # breaks
+        ('do_breaks', 'intervals = get_gene_intervals(probes)'),
+        ('do_breaks', 'bpoints = get_breakpoints(intervals, segments, min_probes)'),
+        ('get_gene_intervals', 'gname = str(row.gene)'), ('get_gene_intervals', 'if gname not in ignore:'),
+        ('get_gene_intervals', 'gene_probes[row.chromosome][gname].append(row)'),
+        ('get_gene_intervals', 'starts = sorted((row.start for row in probes))'),
+        ('get_gene_intervals', 'end = max((row.end for row in probes))'),
+        ('get_gene_intervals', 'intervals[chrom].append((gene, starts, end))'),
+        ('get_gene_intervals', 'intervals[chrom].sort(key=lambda gse: gse[1])'),
+        ('get_breakpoints', 'curr_row in enumerate(segments[:-1]):'),
+        ('get_breakpoints', 'next_row = segments[i + 1]'),
+        ('get_breakpoints', 'if next_row.chromosome != curr_chrom:'),
+        ('get_breakpoints', 'gend in intervals[curr_chrom]:'),
+        ('get_breakpoints', 'if gstarts[0] < curr_end < gend:'),
+        ('get_breakpoints', 'probes_left = sum((s < curr_end for s in gstarts))'),
+        ('get_breakpoints', 'probes_right = sum((s >= curr_end for s in gstarts))'),
+        ('get_breakpoints', 'if probes_left >= min_probes and probes_right >= min_probes:'),
+        ('get_breakpoints', 'breakpoints.append((gname, curr_chrom, int(math.ceil(curr_end)), next_row.log2 - curr_row.log2, probes_left, probes_right))'),
+        ('get_breakpoints', 'breakpoints.sort(key=lambda row: (min(row[4], row[5]), abs(row[3])), reverse=True)'),
+    ]:
+        T.body_contains(R, fn, frag)
+    T.body_contains(S, 'segment_mean', 'if skip_low:')
+    T.body_contains(S, 'segment_mean', 'cnarr = cnarr.drop_low_coverage()')
     return {'GenesDefaults': [
+        ('CNA_REQUIRED_COLUMNS', 'list string', required),
+        ('GM_EXTRA_EXCLUDED', 'list string', extra_excl),
+        ('SQUASH_XFIELDS', 'list string', xfields),
+        ('BREAKS_COLUMNS', 'list string', bcols),
+        ('COL_GENE', 'string', 'gene'), ('COL_PROBES', 'string', 'probes'), ('COL_WEIGHT', 'string', 'weight'),
+        ('COL_DEPTH', 'string', 'depth'), ('COL_LOG2', 'string', 'log2'), ('COL_END', 'string', 'end'),
+        ('COL_SEGMENT_WEIGHT', 'string', 'segment_weight'), ('COL_SEGMENT_PROBES', 'string', 'segment_probes'),
         ('GROUP_IGNORE_LITERALS', 'list string', ['']),
         ('SHIFT_XX_FEMALE_HAPLOID', 'Q', -nums[0]),
         ('SHIFT_XX_MALE_DIPLOID', 'Q', nums[1]),
